@@ -339,10 +339,12 @@ def run_property(prop, tier, groups, meta, replay_fn=None, jobs=None):
     if viol:
         os.makedirs(rep_dir, exist_ok=True)
     printed = set()
+    ntrace = 0
     for g, o in viol:
         code = 1
         path = os.path.join(rep_dir, re.sub(r"[^\w.-]", "_", g.name + "__" + o["id"]) + ".json")
-        assigns = [] if hasattr(g, "run_custom") else trace_for(g, prop, o["id"])
+        ntrace += 1
+        assigns = [] if (hasattr(g, "run_custom") or ntrace > 6) else trace_for(g, prop, o["id"])
         rep = {"property": prop, "group": g.name, "obligation": o, "functions": g.functions,
                "verifier_cmd": g.result["cmd"], "bounded": g.bounded,
                "counterexample_assignments": assigns[-400:]}
